@@ -58,10 +58,11 @@ var extraProps = map[string][]string{
 	// copy-on-write is what makes a reloaded tree independent of its source (C05, "with or without a node cache"),
 	// what keeps "same root name ⇒ same contents" true in memory (C08), what makes a failed operation harmless
 	// before the root swap (C12), and what C01 quantifies over ("cache on/off")
-	"OWN":        {"C01", "C05", "C08", "C12"},
-	"SHAREDPUB":  {"C01", "C05", "C08", "C12"},
-	"FLAGS":      {"C01", "C05", "C08", "C12"},
-	"ALIAS":      {"C01", "C05", "C08", "C12", "C11"},
+	"OWN":        {"C01", "C04", "C05", "C08", "C09", "C12", "C13"},
+	"SHAREDPUB":  {"C01", "C04", "C05", "C08", "C09", "C12", "C13"},
+	"FLAGS":      {"C01", "C04", "C05", "C08", "C09", "C12"},
+	"ALIAS":      {"C01", "C04", "C05", "C08", "C09", "C12", "C13", "C11"},
+	"COMMIT":     {"C09"}, // a failed operation that leaves a half-applied change breaks the shape the next persist records
 	"CACHEAFTER": {"C11"}, // one tree's unfinished write must not make another tree skip its own
 	"ATOMICFILE": {"C18"}, // a successful file Store has written the bytes
 }
